@@ -600,6 +600,12 @@ def run(rep):
     freeze_before_use(rep)
     loops_and_termination(rep)
     age_table(rep)
+    # "... ever removes or alters them": nothing writes into a cached (hence possibly frozen)
+    # value in place -- the ownership analysis of C02 restricted to cache owners
+    from . import c02
+    c02.analyse(rep, owner_filter=lambda o: o.startswith("CACHE"),
+                rule="no-inplace-on-cached", rels=["core.py", "maths.py", "numerical.py",
+                                                   "finitedifference.py", "time.py"])
     rep.floor("strain-factor", 8)
     rep.floor("paired-delete", 2)
     rep.floor("freeze-before-use", 2)
